@@ -365,7 +365,7 @@ func GenSpec(r *Rng, o GenOpts) *GSpec {
 	for i := 0; i < nr; i++ {
 		s.Rules = append(s.Rules, &GRule{Name: fmt.Sprintf("r%d", i)})
 	}
-	s.WithBounds = r.Bool()
+	s.WithBounds = r.Chance(2, 3)
 	for _, rule := range s.Rules {
 		np := 1 + r.Intn(o.MaxProds)
 		distinctLead := r.Bool()
@@ -375,6 +375,23 @@ func GenSpec(r *Rng, o GenOpts) *GSpec {
 			n := r.Intn(o.MaxTerms + 1)
 			if r.Chance(1, 10) {
 				n = 0
+			}
+			if o.Sugar && r.Chance(1, 8) && n > 0 {
+				// a production made only of terms that can derive nothing (x?, x*, @list?): its span is empty
+				// for some inputs and non-empty for others
+				for k := 0; k < n && k < 3; k++ {
+					child := &GTerm{Kind: KTok, Tok: r.Intn(nt)}
+					switch r.Intn(3) {
+					case 0:
+						p.Terms = append(p.Terms, &GTerm{Kind: KOpt, Child: child})
+					case 1:
+						p.Terms = append(p.Terms, &GTerm{Kind: KStar, Child: child})
+					default:
+						p.Terms = append(p.Terms, &GTerm{Kind: KListOpt, Child: child, Sep: &GTerm{Kind: KTok, Tok: r.Intn(nt)}})
+					}
+				}
+				rule.Prods = append(rule.Prods, p)
+				continue
 			}
 			for k := 0; k < n; k++ {
 				if k == 0 && distinctLead && j < nt {
